@@ -4482,7 +4482,7 @@ def _match__inside_list_quantifier(
 
     # match quantifier pattern up to minimum or maximum allowed number of times to list according to greedy
 
-    for count_to in counts:
+    for phase, count_to in enumerate(counts):
         while count < count_to:
             if not match_next_q_pat():
                 break
@@ -4490,7 +4490,7 @@ def _match__inside_list_quantifier(
             count += 1
 
         else:
-            if static_tags := pat.static_tags:
+            if not phase and (static_tags := pat.static_tags):  # only once, when the minimum count is reached, a second copy would throw off matches_del_idx below
                 tagss.append(static_tags)
 
                 if not pat_tag:  # if no pat_tag then inserting matches directly into tagss and need to insert them before the static_tags dict
